@@ -111,6 +111,7 @@ def check_ml(c, r, light=False):
             bad.append(('nonzero-L%s' % ('nd' if L >= 4 else L),
                         'nonzero() differs from the Kronecker pattern at entry %d: got %s expected %s (len %d vs %d)' % (
                             k, got[k] if k < len(got) else None, pos[k] if k < len(pos) else None, len(got), len(pos))))
+            return bad      # everything else (lower triangle, asmatrix, ...) is derived from these positions
         if not light and sorted(set(got)) != kron_nonzero_set(bs, bidx) and len(set(map(tuple, pos))) == len(pos):
             if M * N <= 4096:
                 bad.append(('nonzero-set', 'nonzero() is not the non-zero set of the dense Kronecker product'))
